@@ -16,10 +16,15 @@ Proved here for the model of `remap_curie_prefixes` (after the repairs F3/F4):
 * `C11_step_known`: a step never makes a prefix unknown unless it hands it over
   (`old ∈ handedOver`), and then only `old` itself.
 
-Not proved (the clauses rest on the correspondence and on the Lean checker `Spec.C11.ok`
-evaluated on the implementation's records on every run): that the popped-index bookkeeping
-returns every record exactly once (`C11_count`), and `C11_known` for transitive chains at full
-strength (a handed-over prefix is always picked up by the record it is handed to).
+* `C11_uri_part`: same number of records, each keeping its URI part (the popped-index bookkeeping
+  returns every record exactly once);
+* `C11_known`: every CURIE prefix known before is known afterwards, at full strength — for chains
+  the ordering guarantees (`order_ordered`) that the pair keyed by a handed-over prefix runs before
+  the pair that hands it over, so the prefix is picked up as canonical prefix by the record it is
+  handed to (this is where the repaired defect F4 lived);
+* `C11_applied`: an applicable pair onto an unused prefix (the value of no other pair) makes the new
+  prefix canonical for old's record; `C11_skipped`: a pair aiming at a prefix of another, untouched
+  record leaves both records as they were.
 -/
 
 open Spec Reconcile
@@ -365,6 +370,629 @@ theorem C11_known_partial (c c' : Conv) (rm : List (Str × Str)) (hok : remapCur
         rw [(init?_records hok).1]; exact (sortRecords_perm _).trans (result_perm s hinv)
       exact ⟨r, hrec.mem_iff.mpr hr, hpr⟩
 
+
+/-! ### the ordering: a value is never the key of a later pair -/
+
+def ValBeforeKey (l : List (Str × Str)) : Prop := l.Pairwise fun a b => a.2 ≠ b.1
+
+theorem pairwise_of_forall_mem {α} {R : α → α → Prop} {l : List α} (h : ∀ a ∈ l, ∀ b ∈ l, R a b) : l.Pairwise R := by
+  rw [List.pairwise_iff_getElem]
+  intro i j hi hj _
+  exact h _ (List.getElem_mem hi) _ (List.getElem_mem hj)
+
+theorem ordered_append {E R d : List (Str × Str)} {no : List Str} (hE : ∀ x ∈ E, x ∈ d ∧ x.2 ∈ no)
+    (hR : ∀ y ∈ R, y ∈ d) (hno : ∀ v ∈ no, ∀ y ∈ d, v ≠ y.1) (hRo : ValBeforeKey R) : ValBeforeKey (E ++ R) := by
+  unfold ValBeforeKey
+  rw [List.pairwise_append]
+  refine ⟨pairwise_of_forall_mem ?_, hRo, ?_⟩
+  · intro a ha b hb
+    exact hno a.2 (hE a ha).2 b (hE b hb).1
+  · intro a ha b hb
+    exact hno a.2 (hE a ha).2 b (hR b hb)
+
+theorem peel_ordered (fuel : Nat) (d out : List (Str × Str)) (h : peel fuel d = .ok out) : ValBeforeKey out := by
+  induction fuel generalizing d out with
+  | zero =>
+    cases d with
+    | nil => simp [peel] at h; subst h; exact List.Pairwise.nil
+    | cons a as => simp [peel] at h
+  | succ n ih =>
+    cases d with
+    | nil => simp [peel] at h; subst h; exact List.Pairwise.nil
+    | cons a as =>
+      simp only [peel] at h
+      split at h
+      · cases h
+      · split at h
+        · rename_i rest hrest
+          cases h
+          have hperm := peel_perm _ _ _ hrest
+          refine ordered_append (d := a :: as)
+            (no := ((a :: as).map (·.2)).filter fun v => !((a :: as).map (·.1)).contains v) ?_ ?_ ?_ (ih _ _ hrest)
+          · intro x hx
+            rw [mem_isort, List.mem_filter] at hx
+            exact ⟨hx.1, by simpa using hx.2⟩
+          · intro y hy
+            exact (List.mem_filter.mp (hperm.mem_iff.mp hy)).1
+          · intro v hv y hy e
+            have := (List.mem_filter.mp hv).2
+            have hnm : v ∉ (a :: as).map (·.1) := by simpa using this
+            exact hnm (List.mem_map.mpr ⟨y, hy, e.symm⟩)
+        · cases h
+
+theorem order_ordered (c : Conv) (rm ordering : List (Str × Str)) (h : orderCurieRemapping c rm = .ok ordering) :
+    ValBeforeKey ordering := by
+  unfold orderCurieRemapping at h
+  split at h
+  · cases h
+  · split at h
+    · cases h
+    · split at h
+      · cases h
+      · split at h
+        · rename_i hno
+          cases h
+          apply pairwise_of_forall_mem
+          intro a ha b hb e
+          rw [mem_isort] at ha hb
+          have hany : ((rm.map (·.1)).any fun k => (rm.map (·.2)).contains k) = true := by
+            rw [List.any_eq_true]
+            exact ⟨b.1, List.mem_map.mpr ⟨b, hb, rfl⟩, by
+              rw [List.contains_iff_mem]; exact List.mem_map.mpr ⟨a, ha, e⟩⟩
+          rw [hany] at hno
+          exact absurd hno (by decide)
+        · exact peel_ordered _ _ _ h
+
+/-! ### a handed-over prefix is always picked up -/
+
+def KnownIn (working : List Record) (p : Str) : Prop := ∃ r ∈ working, p ∈ r.allP
+
+/-- what a successful step with a *known* old prefix guarantees about the new prefix: it is known
+afterwards (either some record already listed it — the clash that is skipped — or it has just
+become the canonical prefix of old's record) -/
+theorem remapStep_new_known (c : Conv) (ho : List Str) (s s' : RState) (old new : Str)
+    (h : remapStep c ho s (old, new) = .ok s') (hk : (std c old).isSome) : KnownIn s'.working new := by
+  unfold remapStep at h
+  simp only at h
+  cases h1 : std c old with
+  | none => rw [h1] at hk; cases hk
+  | some oc =>
+    simp only [h1] at h
+    cases h2 : c.records.findIdx? (fun r => r.pfx == oc) with
+    | none => simp only [h2] at h; cases h
+    | some i =>
+      simp only [h2] at h
+      by_cases h3 : s.popped.contains i = true
+      · rw [if_pos h3] at h; cases h
+      · rw [if_neg h3] at h
+        cases h4 : s.working[i]? with
+        | none => simp only [h4] at h; cases h
+        | some record =>
+          simp only [h4] at h
+          have hlt : i < s.working.length := by
+            rcases Nat.lt_or_ge i s.working.length with h' | h'
+            · exact h'
+            · rw [List.getElem?_eq_none_iff.mpr h'] at h4; cases h4
+          by_cases hcl : clashWith s.working record new = true
+          · rw [if_pos hcl] at h; cases h
+            unfold clashWith at hcl
+            cases hf : s.working.find? (fun r => r.allP.contains new) with
+            | none => rw [hf] at hcl; exact absurd hcl (by simp)
+            | some nr =>
+              exact ⟨nr, List.mem_of_find?_eq_some hf, by simpa using List.find?_some hf⟩
+          · rw [if_neg hcl] at h; cases h
+            exact ⟨{ record with pSyn := setUpdate record.pSyn record.pfx (if ho.contains old then [new, old] else [new]),
+                                 pfx := new },
+              by rw [List.mem_iff_getElem]; exact ⟨i, by simpa using hlt, by simp⟩, by simp [Record.allP]⟩
+
+/-- one step forgets at most `old`, only when `old` is handed over, and never `new` -/
+theorem step_known_or_lost (c : Conv) (ho : List Str) (s s' : RState) (old new : Str)
+    (h : remapStep c ho s (old, new) = .ok s') (p : Str) (hp : KnownIn s.working p) :
+    KnownIn s'.working p ∨ (p = old ∧ old ∈ ho) := by
+  by_cases hk : p ≠ old ∨ old ∉ ho
+  · exact Or.inl (C11_step_known c ho s s' old new h p hp hk)
+  · right
+    have : ¬ p ≠ old ∧ ¬ old ∉ ho := by
+      constructor
+      · intro h1; exact hk (Or.inl h1)
+      · intro h2; exact hk (Or.inr h2)
+    exact ⟨Classical.not_not.mp this.1, Classical.not_not.mp this.2⟩
+
+/-- the invariant of the main loop: `p` is known, or a pair that hands `p` to a known record is
+still waiting to be processed -/
+theorem run_known (c : Conv) (rm : List (Str × Str)) (p : Str) :
+    ∀ (l pre : List (Str × Str)) (s0 s1 : RState), ValBeforeKey (pre ++ l) → (∀ kv ∈ rm, kv ∈ pre ++ l) →
+      l.foldlM (remapStep c ((rm.filter fun kv => (std c kv.1).isSome).map (·.2))) s0 = .ok s1 →
+      (KnownIn s0.working p ∨ ∃ kv ∈ l, kv.2 = p ∧ (std c kv.1).isSome) → KnownIn s1.working p := by
+  intro l
+  induction l with
+  | nil =>
+    intro pre s0 s1 _ _ h hinv
+    simp [List.foldlM, pure, Except.pure] at h
+    subst h
+    rcases hinv with hk | ⟨kv, hkv, _⟩
+    · exact hk
+    · cases hkv
+  | cons kv kvs ih =>
+    intro pre s0 s1 hord hall h hinv
+    rw [List.foldlM_cons] at h
+    cases h1 : remapStep c ((rm.filter fun kv => (std c kv.1).isSome).map (·.2)) s0 kv with
+    | error e => simp [h1, bind, Except.bind] at h
+    | ok sm =>
+      simp [h1, bind, Except.bind] at h
+      have hord' : ValBeforeKey ((pre ++ [kv]) ++ kvs) := by simpa using hord
+      have hall' : ∀ x ∈ rm, x ∈ (pre ++ [kv]) ++ kvs := by simpa using hall
+      apply ih (pre ++ [kv]) sm s1 hord' hall' h
+      rcases hinv with hk | ⟨kv', hkv', hv, hs⟩
+      · rcases step_known_or_lost c _ s0 sm kv.1 kv.2 h1 p hk with hk' | ⟨hpo, hho⟩
+        · exact Or.inl hk'
+        · -- `p = old` was handed over: some pair with a known key has value `p`
+          obtain ⟨x, hx, hx2⟩ := List.mem_map.mp hho
+          have hxf := List.mem_filter.mp hx
+          have hxm := hall x hxf.1
+          have hx2' : x.2 = kv.1 := hx2
+          rcases List.mem_append.mp hxm with hpre | hrest
+          · -- before the current pair: impossible, its value would be the key of a later pair
+            have := (List.pairwise_append.mp hord).2.2 x hpre kv (by simp)
+            exact absurd hx2' this
+          · rcases List.mem_cons.mp hrest with rfl | hin
+            · -- the current pair itself hands `p` over: its new prefix is `p`, known after the step
+              left
+              have := remapStep_new_known c _ s0 sm x.1 x.2 h1 hxf.2
+              rw [hx2', ← hpo] at this
+              exact this
+            · exact Or.inr ⟨x, hin, by rw [hx2', hpo], hxf.2⟩
+      · rcases List.mem_cons.mp hkv' with rfl | hin
+        · left
+          have := remapStep_new_known c _ s0 sm kv'.1 kv'.2 h1 hs
+          rw [hv] at this
+          exact this
+        · exact Or.inr ⟨kv', hin, hv, hs⟩
+
+/-- **C11 (every known prefix stays known), at full strength.** Whatever the remapping — chains,
+partially applicable chains, remappings onto existing synonyms — every CURIE prefix known before a
+successful `remap_curie_prefixes` is known afterwards: old names become synonyms, and a prefix
+that a transitive remapping hands over is picked up as canonical prefix by the record it is handed
+to (or is still listed by its old record when that pair was skipped as a clash). -/
+theorem C11_known (c c' : Conv) (rm : List (Str × Str)) (hok : remapCuriePrefixes c rm = .ok c')
+    (p : Str) (hp : ∃ r ∈ c.records, p ∈ r.allP) : ∃ r ∈ c'.records, p ∈ r.allP := by
+  unfold remapCuriePrefixes at hok
+  cases ho : orderCurieRemapping c rm with
+  | error e => simp [ho] at hok
+  | ok ordering =>
+    simp only [ho] at hok
+    cases hf : ordering.foldlM (remapStep c ((rm.filter fun kv => (std c kv.1).isSome).map (·.2)))
+        { working := c.records, popped := [] } with
+    | error e => simp [hf] at hok
+    | ok s =>
+      simp only [hf] at hok
+      have hperm := C11_ordering_perm c rm ordering ho
+      obtain ⟨r, hr, hpr⟩ := run_known c rm p ordering [] _ s (by simpa using order_ordered c rm ordering ho)
+        (fun kv hkv => by simpa using hperm.mem_iff.mpr hkv) hf (Or.inl hp)
+      have hinv := poppedOK_run c _ ordering _ s ⟨List.nodup_nil, by simp⟩ hf
+      have hrec : c'.records.Perm s.working := by
+        rw [(init?_records hok).1]; exact (sortRecords_perm _).trans (result_perm s hinv)
+      exact ⟨r, hrec.mem_iff.mpr hr, hpr⟩
+
+
+/-- the record a non-clashing step writes back -/
+def renamed (ho : List Str) (record : Record) (old new : Str) : Record :=
+  { record with pSyn := setUpdate record.pSyn record.pfx (if ho.contains old then [new, old] else [new]), pfx := new }
+
+/-- the master case analysis of one iteration of the main loop -/
+theorem remapStep_master (c : Conv) (ho : List Str) (s s' : RState) (old new : Str)
+    (h : remapStep c ho s (old, new) = .ok s') :
+    (std c old = none ∧ s' = s) ∨
+    ∃ oc i record, std c old = some oc ∧ c.records.findIdx? (fun r => r.pfx == oc) = some i ∧ i ∉ s.popped ∧
+      s.working[i]? = some record ∧
+      ((clashWith s.working record new = true ∧ s' = { s with popped := s.popped ++ [i] }) ∨
+       (clashWith s.working record new = false ∧
+         s' = { working := s.working.set i (renamed ho record old new), popped := s.popped ++ [i] })) := by
+  unfold remapStep at h
+  simp only at h
+  cases h1 : std c old with
+  | none => simp only [h1] at h; cases h; exact Or.inl ⟨rfl, rfl⟩
+  | some oc =>
+    simp only [h1] at h
+    cases h2 : c.records.findIdx? (fun r => r.pfx == oc) with
+    | none => simp only [h2] at h; cases h
+    | some i =>
+      simp only [h2] at h
+      by_cases h3 : s.popped.contains i = true
+      · rw [if_pos h3] at h; cases h
+      · rw [if_neg h3] at h
+        cases h4 : s.working[i]? with
+        | none => simp only [h4] at h; cases h
+        | some record =>
+          simp only [h4] at h
+          have hnp : i ∉ s.popped := by simpa using h3
+          right
+          refine ⟨oc, i, record, rfl, h2, hnp, h4, ?_⟩
+          by_cases hcl : clashWith s.working record new = true
+          · rw [if_pos hcl] at h; cases h; exact Or.inl ⟨hcl, rfl⟩
+          · rw [if_neg hcl] at h; cases h
+            exact Or.inr ⟨by simpa using hcl, rfl⟩
+
+/-! ### no two different keys standardise to the same known prefix -/
+
+theorem combinations2_pairwise {α} {R : α → α → Prop} (l : List α) (h : ∀ ab ∈ combinations2 l, R ab.1 ab.2) :
+    l.Pairwise R := by
+  induction l with
+  | nil => exact List.Pairwise.nil
+  | cons a as ih =>
+    rw [List.pairwise_cons]
+    constructor
+    · intro b hb
+      exact h (a, b) (by simp [combinations2, hb])
+    · exact ih (fun ab hab => h ab (by simp [combinations2, hab]))
+
+theorem dupKeys_inj (c : Conv) (rm : List (Str × Str)) (h : hasDuplicateKeys c rm = false) {a b : Str × Str}
+    (ha : a ∈ rm) (hb : b ∈ rm) {x : Str} (h1 : std c a.1 = some x) (h2 : std c b.1 = some x) : a.1 = b.1 := by
+  apply Classical.byContradiction
+  intro hne
+  have hpw : (rm.map (·.1)).Pairwise (fun k k' => ¬ ((std c k).isSome = true ∧ std c k = std c k')) := by
+    apply combinations2_pairwise
+    intro ab hab
+    unfold hasDuplicateKeys at h
+    rw [List.any_eq_false] at h
+    have := h ab hab
+    simpa using this
+  obtain ⟨i, hi, rfl⟩ := List.mem_iff_getElem.mp ha
+  obtain ⟨j, hj, rfl⟩ := List.mem_iff_getElem.mp hb
+  have hij : i ≠ j := by intro e; subst e; exact hne rfl
+  have hget := List.pairwise_iff_getElem.mp hpw
+  rcases Nat.lt_or_gt_of_ne hij with hlt | hgt
+  · have := hget i j (by simpa using hi) (by simpa using hj) hlt
+    simp only [List.getElem_map] at this
+    exact this ⟨by rw [h1]; rfl, by rw [h1, h2]⟩
+  · have := hget j i (by simpa using hj) (by simpa using hi) hgt
+    simp only [List.getElem_map] at this
+    exact this ⟨by rw [h2]; rfl, by rw [h1, h2]⟩
+
+theorem order_noDupKeys (c : Conv) (rm ordering : List (Str × Str)) (h : orderCurieRemapping c rm = .ok ordering) :
+    hasDuplicateKeys c rm = false := by
+  unfold orderCurieRemapping at h
+  split at h
+  · cases h
+  · rename_i hd; simpa using hd
+
+/-! ### an applicable pair onto an unused prefix is applied -/
+
+theorem findIdx?_some_getElem? {α} (p : α → Bool) (l : List α) (i : Nat) (h : l.findIdx? p = some i) :
+    ∃ x, l[i]? = some x ∧ p x = true := by
+  rw [List.findIdx?_eq_some_iff_getElem] at h
+  obtain ⟨hi, hp, _⟩ := h
+  exact ⟨l[i], by simp [hi], hp⟩
+
+structure Pre (c : Conv) (idx : Nat) (vals : List Str) (s : RState) : Prop where
+  notPopped : idx ∉ s.popped
+  same : ∀ i, i ∉ s.popped → s.working[i]? = c.records[i]?
+  names : ∀ x ∈ s.working, ∀ q ∈ x.allP, (∃ r ∈ c.records, q ∈ r.allP) ∨ q ∈ vals
+
+theorem mem_renamed_allP (ho : List Str) (record : Record) (old new q : Str) (h : q ∈ (renamed ho record old new).allP) :
+    q = new ∨ q ∈ record.allP := by
+  simp only [renamed, Record.allP, List.mem_cons, mem_setUpdate] at h ⊢
+  rcases h with h | ⟨h, _⟩
+  · exact Or.inl h
+  · rcases h with h | h
+    · exact Or.inr (Or.inr h)
+    · exact Or.inr (Or.inl h)
+
+theorem pre_step (c : Conv) (ho : List Str) (idx : Nat) (tp : Str) (vals : List Str) (s s' : RState) (o n : Str)
+    (hidx : c.records.findIdx? (fun r => r.pfx == tp) = some idx)
+    (hpre : Pre c idx vals s) (h : remapStep c ho s (o, n) = .ok s') (hne : std c o ≠ some tp) :
+    Pre c idx (vals ++ [n]) s' := by
+  have weaken : ∀ x ∈ s.working, ∀ q ∈ x.allP, (∃ r ∈ c.records, q ∈ r.allP) ∨ q ∈ vals ++ [n] := by
+    intro x hx q hq
+    rcases hpre.names x hx q hq with h1 | h1
+    · exact Or.inl h1
+    · exact Or.inr (List.mem_append.mpr (Or.inl h1))
+  rcases remapStep_master c ho s s' o n h with ⟨_, e⟩ | ⟨oc, i, record, hstd, hfi, hnp, hrec, hcase⟩
+  · subst e; exact ⟨hpre.notPopped, hpre.same, weaken⟩
+  · have hii : i ≠ idx := by
+      intro e; subst e
+      obtain ⟨x, hx, hpx⟩ := findIdx?_some_getElem? _ _ _ hfi
+      obtain ⟨y, hy, hpy⟩ := findIdx?_some_getElem? _ _ _ hidx
+      rw [hx] at hy
+      cases hy
+      have e1 : x.pfx = oc := by simpa using hpx
+      have e2 : x.pfx = tp := by simpa using hpy
+      exact hne (by rw [hstd, ← e1, e2])
+    have hpop : idx ∉ s.popped ++ [i] := by
+      intro hm
+      rcases List.mem_append.mp hm with hm | hm
+      · exact hpre.notPopped hm
+      · simp at hm; exact hii hm.symm
+    rcases hcase with ⟨_, e⟩ | ⟨_, e⟩
+    · subst e
+      exact ⟨hpop, fun j hj => hpre.same j (fun hm => hj (List.mem_append.mpr (Or.inl hm))), weaken⟩
+    · subst e
+      refine ⟨hpop, ?_, ?_⟩
+      · intro j hj
+        have hj1 : j ∉ s.popped := fun hm => hj (List.mem_append.mpr (Or.inl hm))
+        have hj2 : j ≠ i := fun e => hj (List.mem_append.mpr (Or.inr (by simp [e])))
+        show (s.working.set i _)[j]? = _
+        rw [List.getElem?_set_ne (Ne.symm hj2)]
+        exact hpre.same j hj1
+      · intro x hx q hq
+        rcases List.mem_or_eq_of_mem_set hx with hx | hx
+        · exact weaken x hx q hq
+        · subst hx
+          rcases mem_renamed_allP ho record o n q hq with e | hq'
+          · exact Or.inr (by simp [e])
+          · have : record ∈ s.working := List.mem_of_getElem? hrec
+            exact weaken record this q hq'
+
+theorem pre_run (c : Conv) (ho : List Str) (idx : Nat) (tp : Str)
+    (hidx : c.records.findIdx? (fun r => r.pfx == tp) = some idx) :
+    ∀ (l : List (Str × Str)) (vals : List Str) (s s' : RState), Pre c idx vals s →
+      l.foldlM (remapStep c ho) s = .ok s' → (∀ kv ∈ l, std c kv.1 ≠ some tp) →
+      Pre c idx (vals ++ l.map (·.2)) s' := by
+  intro l
+  induction l with
+  | nil =>
+    intro vals s s' hpre h _
+    simp [List.foldlM, pure, Except.pure] at h
+    subst h; simpa using hpre
+  | cons kv kvs ih =>
+    intro vals s s' hpre h hne
+    rw [List.foldlM_cons] at h
+    cases h1 : remapStep c ho s kv with
+    | error e => simp [h1, bind, Except.bind] at h
+    | ok sm =>
+      simp [h1, bind, Except.bind] at h
+      have := ih (vals ++ [kv.2]) sm s' (pre_step c ho idx tp vals s sm kv.1 kv.2 hidx hpre h1 (hne kv (by simp))) h
+        (fun x hx => hne x (by simp [hx]))
+      simpa using this
+
+/-- once a record has been popped it is never written again -/
+theorem post_run (c : Conv) (ho : List Str) (idx : Nat) (rec' : Record) :
+    ∀ (l : List (Str × Str)) (s s' : RState), idx ∈ s.popped → s.working[idx]? = some rec' →
+      l.foldlM (remapStep c ho) s = .ok s' → s'.working[idx]? = some rec' := by
+  intro l
+  induction l with
+  | nil =>
+    intro s s' _ hw h
+    simp [List.foldlM, pure, Except.pure] at h
+    subst h; exact hw
+  | cons kv kvs ih =>
+    intro s s' hp hw h
+    rw [List.foldlM_cons] at h
+    cases h1 : remapStep c ho s kv with
+    | error e => simp [h1, bind, Except.bind] at h
+    | ok sm =>
+      simp [h1, bind, Except.bind] at h
+      apply ih sm s' ?_ ?_ h
+      · rcases remapStep_master c ho s sm kv.1 kv.2 h1 with ⟨_, e⟩ | ⟨_, i, _, _, _, _, _, ⟨_, e⟩ | ⟨_, e⟩⟩
+        · subst e; exact hp
+        · subst e; exact List.mem_append.mpr (Or.inl hp)
+        · subst e; exact List.mem_append.mpr (Or.inl hp)
+      · rcases remapStep_master c ho s sm kv.1 kv.2 h1 with ⟨_, e⟩ | ⟨_, i, _, _, _, hnp, _, ⟨_, e⟩ | ⟨_, e⟩⟩
+        · subst e; exact hw
+        · subst e; exact hw
+        · subst e
+          have : i ≠ idx := fun e => hnp (e ▸ hp)
+          show (s.working.set i _)[idx]? = _
+          rw [List.getElem?_set_ne this]; exact hw
+
+/-- **C11 (applicable pairs are applied).** Let `old ↦ new` be a pair of the remapping (a dict:
+distinct keys) whose old prefix is known — canonical or synonym of the record `r` — and whose new
+prefix is unused in the converter and is the value of no other pair.  Then after a successful
+`remap_curie_prefixes` the record of `r` (same canonical URI prefix, URI-prefix synonyms and
+pattern) has `new` as its canonical prefix. -/
+theorem C11_applied {c : Conv} (hw : WF c) (c' : Conv) (rm : List (Str × Str)) (hkeys : (rm.map (·.1)).Nodup)
+    (hok : remapCuriePrefixes c rm = .ok c') (old new : Str) (hmem : (old, new) ∈ rm)
+    (r : Record) (hr : r ∈ c.records) (hold : old ∈ r.allP)
+    (hunused : ∀ x ∈ c.records, new ∉ x.allP)
+    (hone : ∀ kv ∈ rm, kv.2 = new → kv = (old, new)) :
+    ∃ r' ∈ c'.records, r'.pfx = new ∧ r'.uri = r.uri ∧ r'.uSyn = r.uSyn ∧ r'.pattern = r.pattern := by
+  have hstd : std c old = some r.pfx := by
+    unfold std
+    rw [hw.mirror.sp, ownerP_of_mem hw.unique hr hold]; rfl
+  -- the position of `r`
+  have hsome : (c.records.findIdx? (fun x => x.pfx == r.pfx)).isSome := by
+    rw [List.findIdx?_isSome]
+    exact List.any_eq_true.mpr ⟨r, hr, by simp⟩
+  obtain ⟨idx, hidx⟩ := Option.isSome_iff_exists.mp hsome
+  obtain ⟨x, hx, hpx⟩ := findIdx?_some_getElem? _ _ _ hidx
+  have hxr : x = r := by
+    have hxm : x ∈ c.records := List.mem_of_getElem? hx
+    have e : x.pfx = r.pfx := by simpa using hpx
+    have h1 := find?_pfx_of_mem hw.unique hxm
+    have h2 := find?_pfx_of_mem hw.unique hr
+    rw [e, h2] at h1
+    exact (Option.some.inj h1).symm
+  subst hxr
+  unfold remapCuriePrefixes at hok
+  cases ho : orderCurieRemapping c rm with
+  | error e => simp [ho] at hok
+  | ok ordering =>
+    simp only [ho] at hok
+    generalize hHO : (rm.filter fun kv => (std c kv.1).isSome).map (·.2) = HO at hok
+    cases hf : ordering.foldlM (remapStep c HO) { working := c.records, popped := [] } with
+    | error e => simp [hf] at hok
+    | ok s =>
+      simp only [hf] at hok
+      have hperm := C11_ordering_perm c rm ordering ho
+      have hnd := order_noDupKeys c rm ordering ho
+      obtain ⟨pre, post, hsplit⟩ := List.append_of_mem (hperm.mem_iff.mpr hmem)
+      have hkeys' : ((pre ++ (old, new) :: post).map (·.1)).Nodup := by
+        rw [← hsplit]; exact (hperm.map _).nodup_iff.mpr hkeys
+      have hnotpre : ∀ kv ∈ pre, kv.1 ≠ old := by
+        intro kv hkv e
+        rw [List.map_append, List.nodup_append] at hkeys'
+        exact hkeys'.2.2 kv.1 (List.mem_map.mpr ⟨kv, hkv, rfl⟩) old (by simp) e
+      have hmemrm : ∀ kv ∈ pre, kv ∈ rm := fun kv hkv =>
+        hperm.mem_iff.mp (by rw [hsplit]; exact List.mem_append.mpr (Or.inl hkv))
+      rw [hsplit, List.foldlM_append] at hf
+      cases hfa : pre.foldlM (remapStep c HO) { working := c.records, popped := [] } with
+      | error e => simp [hfa, bind, Except.bind] at hf
+      | ok sa =>
+        simp only [hfa, bind, Except.bind] at hf
+        rw [List.foldlM_cons] at hf
+        cases hfb : remapStep c HO sa (old, new) with
+        | error e => simp [hfb, bind, Except.bind] at hf
+        | ok sb =>
+          simp only [hfb, bind, Except.bind] at hf
+          have hpreA := pre_run c HO idx x.pfx hidx pre [] _ sa
+            ⟨by simp, fun _ _ => rfl, fun y hy q hq => Or.inl ⟨y, hy, hq⟩⟩ hfa
+            (by
+              intro kv hkv e
+              exact hnotpre kv hkv (dupKeys_inj c rm hnd (hmemrm kv hkv) hmem e hstd))
+          have hxa : sa.working[idx]? = some x := by rw [hpreA.same idx hpreA.notPopped]; exact hx
+          have hnoclash : clashWith sa.working x new = false := by
+            unfold clashWith
+            cases hfind : sa.working.find? (fun r => r.allP.contains new) with
+            | none => rfl
+            | some nr =>
+              exfalso
+              have hnm := List.mem_of_find?_eq_some hfind
+              have hnn : new ∈ nr.allP := by simpa using List.find?_some hfind
+              rcases hpreA.names nr hnm new hnn with ⟨y, hy, hq⟩ | hv
+              · exact hunused y hy hq
+              · simp only [List.nil_append] at hv
+                obtain ⟨kv, hkv, e⟩ := List.mem_map.mp hv
+                have := hone kv (hmemrm kv hkv) e
+                exact hnotpre kv hkv (by rw [this])
+          have hsb : sb.working[idx]? = some (renamed HO x old new) ∧ idx ∈ sb.popped := by
+            rcases remapStep_master c HO sa sb old new hfb with ⟨hn, _⟩ | ⟨oc, i, record, hs, hfi, _, hrec, hcase⟩
+            · rw [hstd] at hn; cases hn
+            · rw [hstd] at hs
+              cases hs
+              rw [hidx] at hfi
+              cases hfi
+              rw [hxa] at hrec
+              cases hrec
+              rcases hcase with ⟨hc, _⟩ | ⟨_, e⟩
+              · rw [hnoclash] at hc; cases hc
+              · subst e
+                have hlt : idx < sa.working.length := by
+                  rcases Nat.lt_or_ge idx sa.working.length with h' | h'
+                  · exact h'
+                  · rw [List.getElem?_eq_none_iff.mpr h'] at hxa; cases hxa
+                exact ⟨by show (sa.working.set idx _)[idx]? = _; rw [List.getElem?_set_self hlt], by simp⟩
+          have hfin := post_run c HO idx _ post sb s hsb.2 hsb.1 hf
+          have hinv := poppedOK_run c HO ordering { working := c.records, popped := [] } s ⟨List.nodup_nil, by simp⟩ (by
+            rw [hsplit, List.foldlM_append, hfa]
+            simp only [bind, Except.bind]
+            rw [List.foldlM_cons, hfb]
+            simp only [bind, Except.bind]
+            exact hf)
+          have hrec : c'.records.Perm s.working := by
+            rw [(init?_records hok).1]; exact (sortRecords_perm _).trans (result_perm s hinv)
+          exact ⟨_, hrec.mem_iff.mpr (List.mem_of_getElem? hfin), rfl, rfl, rfl, rfl⟩
+
+theorem idx_of_mem {c : Conv} (hw : WF c) {r : Record} (hr : r ∈ c.records) :
+    ∃ idx, c.records.findIdx? (fun x => x.pfx == r.pfx) = some idx ∧ c.records[idx]? = some r := by
+  have hsome : (c.records.findIdx? (fun x => x.pfx == r.pfx)).isSome := by
+    rw [List.findIdx?_isSome]
+    exact List.any_eq_true.mpr ⟨r, hr, by simp⟩
+  obtain ⟨idx, hidx⟩ := Option.isSome_iff_exists.mp hsome
+  obtain ⟨x, hx, hpx⟩ := findIdx?_some_getElem? _ _ _ hidx
+  have hxm : x ∈ c.records := List.mem_of_getElem? hx
+  have e : x.pfx = r.pfx := by simpa using hpx
+  have h1 := find?_pfx_of_mem hw.unique hxm
+  have h2 := find?_pfx_of_mem hw.unique hr
+  rw [e, h2] at h1
+  exact ⟨idx, hidx, by rw [hx, (Option.some.inj h1).symm]⟩
+
+/-- **C11 (clashing pairs are skipped).** Let `old ↦ new` be a pair whose old prefix belongs to the
+record `r` and whose new prefix belongs to another record `r2` that no key of the remapping refers
+to.  Then after a successful `remap_curie_prefixes` both records are there exactly as they were. -/
+theorem C11_skipped {c : Conv} (hw : WF c) (c' : Conv) (rm : List (Str × Str)) (hkeys : (rm.map (·.1)).Nodup)
+    (hok : remapCuriePrefixes c rm = .ok c') (old new : Str) (hmem : (old, new) ∈ rm)
+    (r r2 : Record) (hr : r ∈ c.records) (hr2 : r2 ∈ c.records) (hne : r ≠ r2)
+    (hold : old ∈ r.allP) (hnew : new ∈ r2.allP)
+    (huntouched : ∀ kv ∈ rm, std c kv.1 ≠ some r2.pfx) :
+    r ∈ c'.records ∧ r2 ∈ c'.records := by
+  have hstd : std c old = some r.pfx := by
+    unfold std
+    rw [hw.mirror.sp, ownerP_of_mem hw.unique hr hold]; rfl
+  obtain ⟨idx, hidx, hx⟩ := idx_of_mem hw hr
+  obtain ⟨idx2, hidx2, hx2⟩ := idx_of_mem hw hr2
+  have hnewr : new ∉ r.allP := by
+    intro h
+    obtain ⟨i, hi, rfl⟩ := List.mem_iff_getElem.mp hr
+    obtain ⟨j, hj, rfl⟩ := List.mem_iff_getElem.mp hr2
+    have hij : i ≠ j := by intro e; subst e; exact hne rfl
+    exact (unique_getElem hw.unique hi hj hij).1 new h hnew
+  unfold remapCuriePrefixes at hok
+  cases ho : orderCurieRemapping c rm with
+  | error e => simp [ho] at hok
+  | ok ordering =>
+    simp only [ho] at hok
+    generalize hHO : (rm.filter fun kv => (std c kv.1).isSome).map (·.2) = HO at hok
+    cases hf : ordering.foldlM (remapStep c HO) { working := c.records, popped := [] } with
+    | error e => simp [hf] at hok
+    | ok s =>
+      simp only [hf] at hok
+      have hperm := C11_ordering_perm c rm ordering ho
+      have hnd := order_noDupKeys c rm ordering ho
+      have hinv := poppedOK_run c HO ordering { working := c.records, popped := [] } s ⟨List.nodup_nil, by simp⟩ hf
+      have hrec : c'.records.Perm s.working := by
+        rw [(init?_records hok).1]; exact (sortRecords_perm _).trans (result_perm s hinv)
+      have init : ∀ k, Pre c k [] { working := c.records, popped := [] } := fun k =>
+        ⟨by simp, fun _ _ => rfl, fun y hy q hq => Or.inl ⟨y, hy, hq⟩⟩
+      -- `r2` is never touched
+      have h2fin : s.working[idx2]? = some r2 := by
+        have := pre_run c HO idx2 r2.pfx hidx2 ordering [] _ s (init idx2) hf
+          (fun kv hkv => huntouched kv (hperm.mem_iff.mp hkv))
+        rw [this.same idx2 this.notPopped]; exact hx2
+      refine ⟨?_, hrec.mem_iff.mpr (List.mem_of_getElem? h2fin)⟩
+      obtain ⟨pre, post, hsplit⟩ := List.append_of_mem (hperm.mem_iff.mpr hmem)
+      have hkeys' : ((pre ++ (old, new) :: post).map (·.1)).Nodup := by
+        rw [← hsplit]; exact (hperm.map _).nodup_iff.mpr hkeys
+      have hnotpre : ∀ kv ∈ pre, kv.1 ≠ old := by
+        intro kv hkv e
+        rw [List.map_append, List.nodup_append] at hkeys'
+        exact hkeys'.2.2 kv.1 (List.mem_map.mpr ⟨kv, hkv, rfl⟩) old (by simp) e
+      have hmemrm : ∀ kv ∈ pre, kv ∈ rm := fun kv hkv =>
+        hperm.mem_iff.mp (by rw [hsplit]; exact List.mem_append.mpr (Or.inl hkv))
+      rw [hsplit, List.foldlM_append] at hf
+      cases hfa : pre.foldlM (remapStep c HO) { working := c.records, popped := [] } with
+      | error e => simp [hfa, bind, Except.bind] at hf
+      | ok sa =>
+        simp only [hfa, bind, Except.bind] at hf
+        rw [List.foldlM_cons] at hf
+        cases hfb : remapStep c HO sa (old, new) with
+        | error e => simp [hfb, bind, Except.bind] at hf
+        | ok sb =>
+          simp only [hfb, bind, Except.bind] at hf
+          have hpreA := pre_run c HO idx r.pfx hidx pre [] _ sa (init idx) hfa
+            (by
+              intro kv hkv e
+              exact hnotpre kv hkv (dupKeys_inj c rm hnd (hmemrm kv hkv) hmem e hstd))
+          have hpreA2 := pre_run c HO idx2 r2.pfx hidx2 pre [] _ sa (init idx2) hfa
+            (fun kv hkv => huntouched kv (hmemrm kv hkv))
+          have hxa : sa.working[idx]? = some r := by rw [hpreA.same idx hpreA.notPopped]; exact hx
+          have hxa2 : sa.working[idx2]? = some r2 := by rw [hpreA2.same idx2 hpreA2.notPopped]; exact hx2
+          have hclash : clashWith sa.working r new = true := by
+            unfold clashWith
+            cases hfind : sa.working.find? (fun y => y.allP.contains new) with
+            | none =>
+              exfalso
+              have := List.find?_eq_none.mp hfind r2 (List.mem_of_getElem? hxa2)
+              simp [hnew] at this
+            | some nr =>
+              have hnn : new ∈ nr.allP := by simpa using List.find?_some hfind
+              show (r != nr) = true
+              rw [bne_iff_ne]
+              intro e; subst e; exact hnewr hnn
+          have hsb : sb.working[idx]? = some r ∧ idx ∈ sb.popped := by
+            rcases remapStep_master c HO sa sb old new hfb with ⟨hn, _⟩ | ⟨oc, i, record, hs, hfi, _, hrec', hcase⟩
+            · rw [hstd] at hn; cases hn
+            · rw [hstd] at hs
+              cases hs
+              rw [hidx] at hfi
+              cases hfi
+              rw [hxa] at hrec'
+              cases hrec'
+              rcases hcase with ⟨_, e⟩ | ⟨hc, _⟩
+              · subst e; exact ⟨hxa, by simp⟩
+              · rw [hclash] at hc; cases hc
+          have hfin := post_run c HO idx _ post sb s hsb.2 hsb.1 hf
+          exact hrec.mem_iff.mpr (List.mem_of_getElem? hfin)
+
 /-- Non-vacuity and the repaired defect F4: a chain through a synonym keeps every prefix known, a
 hand-over whose key is unknown drops nothing, a swap is a cycle, two keys of one record are
 duplicate keys. -/
@@ -377,4 +1005,13 @@ example :
     = [.recs [⟨[98], [117, 47], [[65], [97]], [], none⟩, ⟨[99], [118, 47], [[66]], [], none⟩],
        .recs [⟨[65], [117, 47], [[97]], [], none⟩, ⟨[99], [118, 47], [[66], [98]], [], none⟩],
        .err .cycle, .err .dupKeys] := by
+  decide
+
+/-- Non-vacuity of `C11_applied` / `C11_skipped`: `a ↦ N` (synonym key, unused new prefix) is applied,
+`B ↦ C` aims at another record's prefix and is skipped. -/
+example :
+    (let c := Conv.build [58] [⟨[65], [117, 47], [[97]], [], none⟩, ⟨[66], [118, 47], [], [], none⟩,
+                               ⟨[67], [119, 47], [], [], none⟩]
+     match remapCuriePrefixes c [([97], [78]), ([66], [67])] with | .ok x => Val.recs x.records | .error e => .err e)
+    = .recs [⟨[66], [118, 47], [], [], none⟩, ⟨[67], [119, 47], [], [], none⟩, ⟨[78], [117, 47], [[65], [97]], [], none⟩] := by
   decide
